@@ -119,6 +119,11 @@ func (e *Engine) globalSlot(g *ssa.Global) *Value {
 		case types.Identical(elem, types.Universe.Lookup("error").Type()):
 			// sentinel errors (io.EOF, strconv.ErrSyntax, ...): one distinct error each
 			*s = e.newError(mkStr(g.String()))
+		case strings.HasPrefix(g.String(), "encoding/base64.") && strings.HasSuffix(g.String(), "Encoding"):
+			// the standard encodings: an object that knows its name (its methods are intrinsics)
+			enc := new(Value)
+			*enc = mkStr(g.String())
+			*s = PtrVal{enc}
 		case g.String() == "crypto/rand.Reader":
 			// the system's random source: an opaque reader (whoever reads from it is modelled)
 			*s = IfaceVal{typ: e.sh.marks.opaque, val: PtrVal{new(Value)}}
